@@ -162,8 +162,24 @@ def build(rng):
         k = rng.randint(0, len(parts))
         parts.insert(k, neg)
     elif not default_bo and rng.random() < 0.7:
-        # missing byte order: a module without $default byte_order and a multi-byte field
-        parts.append("struct MissingOrder:\n  0 [+2]  UInt  a\n")
+        # missing byte order: a module without $default byte_order whose other definitions need none (one-byte fields,
+        # arrays of one-byte elements, explicitly ordered fields), plus ONE byte-order-dependent field without it
+        parts = []
+        for i in range(rng.randint(0, 2)):
+            parts.append(rng.choice([
+                "struct Free%d:\n  0 [+1]  UInt  a\n  1 [+1]  Int  b\n  2 [+4]  UInt:8[4]  arr\n" % i,
+                "struct Free%d:\n  0 [+1]  bits:\n    0 [+4]  UInt  lo\n    4 [+4]  UInt  hi\n  1 [+2]  UInt  w\n    [byte_order: \"BigEndian\"]\n" % i,
+                "enum FreeE%d:\n  ONLY = 1\nstruct Free%d:\n  0 [+1]  FreeE%d  e\n  1 [+1]  Bcd  d\n" % (i, i, i),
+            ]))
+        neg = rng.choice([
+            "  0 [+2]  UInt  a\n", "  0 [+8]  Int  a\n", "  0 [+3]  Bcd  a\n", "  0 [+4]  Float  a\n",
+            "  0 [+4]  UInt:16[2]  a\n",
+            "  0 [+2]  bits:\n    0 [+4]  UInt  low\n",          # anonymous bits declaring fewer bits than the field has
+            "  0 [+4]  bits:\n    0 [+8]  UInt  x\n",            # ... or exactly one byte's worth in a four-byte field
+            "  0 [+2]  bits:\n    0 [+16]  UInt  x\n",
+            "  0 [+8]  bits:\n    0 [+1]  Flag  f\n    1 [+7]  UInt  x\n",
+        ])
+        parts.append("struct MissingOrder:\n" + neg)
         rule = "missing-byte-order"
         k = len(parts) - 1
     head = ['[$default byte_order: "LittleEndian"]'] if (default_bo or rule not in (None, "missing-byte-order")) else []
